@@ -164,8 +164,12 @@ func renderMsg(m edge.Message) (string, bool) {
 		if len(ps) > 0 {
 			l = strings.Join(ps, ";")
 		}
-		return fmt.Sprintf("B|%s|%d|n:%d|%s|%s", gkey(d.ByName, x.Name(), d.TagNames, x.Tags()), x.Time().UnixNano(),
-			len(ps), kit.Esc(x.Name()), l), true
+		pj := fmt.Sprintf("n:%d", len(ps)) // projection of a batch: size and the times of its points
+		for _, bp := range x.Points() {
+			pj += fmt.Sprintf("/%d", bp.Time().UnixNano())
+		}
+		return fmt.Sprintf("B|%s|%d|%s|%s|%s", gkey(d.ByName, x.Name(), d.TagNames, x.Tags()), x.Time().UnixNano(),
+			pj, kit.Esc(x.Name()), l), true
 	}
 	return "", false
 }
@@ -385,6 +389,8 @@ var nodeDefs = map[string]nodeDef{
 	"alertsigma":    {"|alert()\n    .warn(lambda: sigma(\"v\") > 1.0)\n    .crit(lambda: \"v\" > %d)\n    .levelField('o')\n    .durationField('d')\n    .idField('i')", false, 1},
 	"alertlevels":   {"|alert()\n    .info(lambda: \"v\" > %d)\n    .warn(lambda: \"v\" > %d + 2)\n    .crit(lambda: \"v\" > 8)\n    .critReset(lambda: \"v\" < 3)\n    .levelField('o')\n    .durationField('d')\n    .idTag('i')", false, 2},
 	"alertreset":    {"|alert()\n    .warn(lambda: \"v\" > 2)\n    .warnReset(lambda: count() %% 3 == 0)\n    .crit(lambda: \"v\" > %d + 3)\n    .critReset(lambda: count() %% 2 == 0)\n    .levelField('o')", false, 1},
+	"alertthr":      {"|alert()\n    .info(lambda: \"v\" > %d)\n    .warn(lambda: \"v\" > %d + 2)\n    .crit(lambda: \"v\" > %d + 4)\n    .levelField('o')", false, 3},
+	"alertthrsco":   {"|alert()\n    .info(lambda: \"v\" > %d)\n    .warn(lambda: \"v\" > %d + 2)\n    .crit(lambda: \"v\" > %d + 4)\n    .stateChangesOnly()\n    .levelField('o')", false, 3},
 	"alertsco":      {"|alert()\n    .warn(lambda: \"v\" > %d)\n    .crit(lambda: \"v\" > 8)\n    .stateChangesOnly()\n    .levelField('o')\n    .durationField('d')\n    .messageField('m')", false, 1},
 	"alertflap":     {"|alert()\n    .crit(lambda: \"v\" > %d)\n    .flapping(0.25, 0.5)\n    .history(5)\n    .levelField('o')", false, 1},
 	"last":          {"|last('v')\n    .as('o')", false, 0},
@@ -435,7 +441,11 @@ func isoScript(t []string) (string, bool) {
 	}
 	p1, _ := strconv.Atoi(t[2])
 	p2, _ := strconv.Atoi(t[3])
-	args := []interface{}{p1, p2}[:def.nargs]
+	args := []interface{}{p1, p2}
+	if def.nargs == 3 { // the same parameter three times
+		args = []interface{}{p1, p1, p1}
+	}
+	args = args[:def.nargs]
 	dims := unescList(t[5])
 	sort.Strings(dims)
 	var b strings.Builder
